@@ -183,6 +183,11 @@ impl<'a> Shrinker<'a> {
             i -= 1;
             let mut cand = cur.clone();
             let removed = cand.tree.entries.remove(i);
+            // the file the follow-up probe asks for stays (without it the probe's 404 would pass for
+            // the violation being minimised)
+            if removed.path.ends_with("/probe.txt") {
+                continue;
+            }
             let prefix = format!("{}/", removed.path);
             if cand.tree.entries.iter().any(|e| e.path.starts_with(&prefix)) {
                 continue;
